@@ -205,6 +205,17 @@ fn run_bytes(bytes: &[u8], want_restep: bool) -> (String, String, String, String
   ("(ok)".into(), re, run, format!("(instrs {})", instrs.join(" ")), restep)
 }
 
+fn with_symbols(intrp: &mut Interpreter, arr: &Vec<J>) -> Option<Vec<u8>> {
+  let ctx = intrp.context.as_mut()?;
+  for (k, s) in arr.iter().enumerate() {
+    let name = s[0].as_str().unwrap_or("");
+    let reg = s[1].as_u64().unwrap_or(0) as u32;
+    let m = s[2].as_bool().unwrap_or(false);
+    ctx.define_symbol(k, reg, name, m);
+  }
+  match catch_unwind(AssertUnwindSafe(|| ctx.compile())) { Ok(Ok(b)) => Some(b), _ => None }
+}
+
 fn mode_bytecode(j: &J) -> String {
   let src = j["src"].as_str().unwrap_or("");
   let mut intrp = Interpreter::new(0);
@@ -217,6 +228,12 @@ fn mode_bytecode(j: &J) -> String {
     Ok(Ok(b)) => b,
     Ok(Err(e)) => return format!("(bc {} {} (na) (na) (na) (instrs) {} \"\")", r, errs(&e), plan),
     Err(_) => return format!("(bc {} (panic compile) (na) (na) (na) (instrs) {} \"\")", r, plan),
+  };
+  // C07: optionally define symbols (name, register, mutable) in the compile context and lay the file out again
+  // with CompileCtx::compile, so that the symbol and dictionary sections of emitted files are not empty
+  let bc = match j.get("defsyms").and_then(|x| x.as_array()) {
+    Some(arr) => with_symbols(&mut intrp, arr).unwrap_or(bc),
+    None => bc,
   };
   let (load, re, run, instrs, restep) = run_bytes(&bc, j.get("restep").is_some());
   let want_hex = j.get("hex").and_then(|x| x.as_bool()).unwrap_or(false);
@@ -253,19 +270,38 @@ fn mode_loader(j: &J) -> String {
     Ok(Err(e)) => return format!("(load {})", errs(&e)),
     Err(_) => return "(load (panic load))".to_string(),
   };
+  let mut vals = "(vals na)".to_string();
   let dec = match catch_unwind(AssertUnwindSafe(|| pp.decode_const_entries())) {
-    Ok(Ok(v)) => format!("(ok {})", v.len()),
+    Ok(Ok(v)) => {
+      // canonical print of every decoded constant (a printer panic is reported, never propagated)
+      vals = match catch_unwind(AssertUnwindSafe(|| v.iter().map(|x| canon(x)).collect::<Vec<_>>().join(" "))) {
+        Ok(s) => format!("(vals ok {})", s),
+        Err(_) => "(vals panic)".to_string(),
+      };
+      format!("(ok {})", v.len())
+    }
     Ok(Err(e)) => errs(&e),
     Err(_) => "(panic decode)".to_string(),
   };
   let re = match catch_unwind(AssertUnwindSafe(|| pp.to_bytes())) {
-    Ok(Ok(b)) => if b == bytes { "(same)".to_string() } else { format!("(differs {})", b.len()) },
+    Ok(Ok(b)) => if b == bytes { "(same)".to_string() } else { format!("(differs {} {})", b.len(), qstr(&hex(&b))) },
     Ok(Err(e)) => errs(&e),
     Err(_) => "(panic reencode)".to_string(),
   };
   let consts: Vec<String> = pp.const_entries.iter().map(|c| format!("({} {} {} {} {} {} {})", c.type_id, c.enc, c.align, c.flags, c.reserved, c.offset, c.length)).collect();
   let instrs: Vec<String> = pp.instrs.iter().map(instr_sx).collect();
-  format!("(load (ok) {} (consts {}) (instrs {}) {} {} (nsyms {}) (ndict {}))", header_sx(&pp.header), consts.join(" "), instrs.join(" "), dec, re, pp.symbols.len(), pp.dictionary.len())
+  // C07 extension (additive, after the old fields): every decoded section
+  let feats: Vec<String> = pp.features.iter().map(|f| f.to_string()).collect();
+  let types: Vec<String> = pp.types.entries.iter().map(|e| format!("({} {})", e.tag as u16, qstr(&hex(&e.bytes)))).collect();
+  let mut syms: Vec<(u64, u8, u32)> = pp.symbols.iter().map(|(id, reg)| (*id, if pp.mutable_symbols.contains(id) { 1 } else { 0 }, *reg)).collect();
+  syms.sort();
+  let syms: Vec<String> = syms.iter().map(|(i, m, r)| format!("({} {} {})", i, m, r)).collect();
+  let mut dict: Vec<(u64, String)> = pp.dictionary.iter().map(|(id, n)| (*id, hex(n.as_bytes()))).collect();
+  dict.sort();
+  let dict: Vec<String> = dict.iter().map(|(i, n)| format!("({} {})", i, qstr(n))).collect();
+  format!("(load (ok) {} (consts {}) (instrs {}) {} {} (nsyms {}) (ndict {}) (features {}) (types {}) (syms {}) (dict {}) (blob {}) {})",
+    header_sx(&pp.header), consts.join(" "), instrs.join(" "), dec, re, pp.symbols.len(), pp.dictionary.len(),
+    feats.join(" "), types.join(" "), syms.join(" "), dict.join(" "), qstr(&hex(&pp.const_blob)), vals)
 }
 
 fn main() {
